@@ -44,7 +44,13 @@ for cfg in ("all", "default", "checkpoint", "futures"):
     p = facts.load(cfg)
     for k, v in guardvocab.site_vocab(p).items():
         vocab[k] = sorted(set(vocab.get(k, [])) | set(v))
+must = {}
+for cfg in ("all", "default", "checkpoint", "futures"):
+    p = facts.load(cfg)
+    for k, v in guardvocab.must_effects(p).items():
+        # a function compiled in several configurations: keep what holds in all of them
+        must[k] = sorted(set(must[k]) & set(v)) if k in must else v
 out = os.path.join(os.path.dirname(os.path.abspath(__file__)), "..", "lint", "reference.json")
 with open(out, "w") as fh:
-    json.dump(dict(fns=fns, adts=adts, closures=closures, guard_vocab=vocab), fh, indent=0, sort_keys=True)
+    json.dump(dict(fns=fns, adts=adts, closures=closures, guard_vocab=vocab, must_effects=must), fh, indent=0, sort_keys=True)
 print(len(fns), "functions,", len(adts), "structs,", len(closures), "closures written")
